@@ -78,6 +78,9 @@ class Impl:
             elif k == "CGET":
                 env._active_proc = self.caller(0)
                 res = "ok" if fl.reserve_get_cancel(self.toks[op[1]]) else "ret"
+            elif k == "PROBE":
+                occ = fl.get_occupancy() if hasattr(fl, "get_occupancy") else fl.occupancy()
+                res = "probe:%s,%s,%d" % (str(bool(fl.can_put())).lower(), str(bool(fl.can_get())).lower(), occ)
             else:
                 raise AssertionError(k)
         except Exception as ex:  # noqa
@@ -135,6 +138,8 @@ def run_impl(case):
             res, trig = im.api(op)
             micro.append(op); rows.append((res, trig, im.state()))
             mops.append([(op[0], op[1], 0)] if op[0] in ("RPUT", "RGET") else [op])
+            if res.startswith("err:") and op[0] == "PROBE":
+                pass
     return micro, rows, mops
 
 
@@ -194,15 +199,27 @@ def run_batch(cases):
 def oracle(case, micro, rows):
     """C14 on the implementation trace of one fleet"""
     viol, load, ready_at, clock = [], {}, {}, 0
-    prev_ready, seq, full_at, prev = [], {}, None, None
+    prev_ready, seq, full_at, prev, full_items = [], {}, None, None, set()
     for i, (op, r) in enumerate(zip(micro, rows)):
         if op[0] == "IDLE" and full_at is not None and prev is not None:
             # the instant in which the held items reached the capacity is over: everything loaded must have left
-            waiting = [x for x in prev["items"].split(",") if x and x not in prev["intransit"].split(",")]
+            waiting = [x for x in prev["items"].split(",") if x and x not in prev["intransit"].split(",") and x in full_items]
             if waiting:
                 viol.append((i, "held items reached the capacity %d at %d but items %s had not departed when that instant ended" %
                              (case["cap"], full_at, ",".join(waiting))))
             full_at = None
+        if op[0] == "PROBE" and r["res"].startswith("probe:"):
+            cp, cg, occ = r["res"][6:].split(",")
+            n = len([v for v in r["items"].split(",") if v]) + len([v for v in r["ready"].split(",") if v])
+            if int(occ) != n:
+                viol.append((i, "C11: occupancy = %s but the fleet holds %d items" % (occ, n)))
+            for j, kind, flag, what in ((i + 1, "RPUT", cp, "can_put"), (i + 3, "RGET", cg, "can_get")):
+                if j < len(micro) and micro[j][0] == kind and rows[j]["res"].startswith("tok:"):
+                    granted = rows[j]["res"][4:] in rows[j]["trig"].split(",")
+                    if (flag == "true") != granted:
+                        viol.append((i, "C11: Fleet.%s() = %s but a reservation issued now is %s" % (what, flag, "granted" if granted else "not granted")))
+        elif op[0] == "PROBE":
+            viol.append((i, "C11: Fleet query raised " + r["res"]))
         prev = r
         clock = int(r["clock"]) if r["clock"] != "" else clock
         if op[0] == "LOAD" and r["res"] == "ok":
@@ -210,6 +227,7 @@ def oracle(case, micro, rows):
             seq[op[3]] = len(seq)
             if len([x for x in r["items"].split(",") if x]) + len([x for x in r["ready"].split(",") if x]) >= case["cap"]:
                 full_at = clock
+                full_items = set(x for x in r["items"].split(",") if x)      # what the capacity trigger must send off
         ready = [int(x) for x in r["ready"].split(",") if x]
         if sorted(ready, key=lambda x: seq.get(x, -1)) != ready and not any("order" in m for _, m in viol):
             viol.append((i, "available items %s are not in loading order" % ready))
@@ -255,7 +273,7 @@ def gen_case(rng, n_ops):
         st = im.st
         gp, gg = tokens_in(st.reservations_put), tokens_in(st.reservations_get)
         pp, pg = tokens_in(st.reserve_put_queue), tokens_in(st.reserve_get_queue)
-        ch = [("RPUT", 6), ("RGET", 4), ("STEP", 4), ("ADV", 5)]
+        ch = [("RPUT", 6), ("RGET", 4), ("STEP", 4), ("ADV", 5), ("PROBE", 3)]
         if gp:
             ch.append(("LOAD", 10))
         if gg:
@@ -283,6 +301,10 @@ def gen_case(rng, n_ops):
                 do(("CGET", rng.choice(gg + pg)))
             elif k == "STEP":
                 do(("STEP",))
+            elif k == "PROBE":
+                do(("PROBE",))
+                n0 = len(im.toks)
+                do(("RPUT", 0)); do(("CPUT", n0)); do(("RGET", 0)); do(("CGET", n0 + 1))
             else:
                 do(("ADV", rng.choice([1, 1, 2, 3])))
         except Exception:  # noqa
